@@ -35,7 +35,7 @@ RULE = ("each run generates a redirect graph over 2-8 URLs on up to three hosts 
         "issues 1-3 fetches; results are compared with a walk of the graph. distinct = distinct "
         "(graph shape, max_redirects, result class) signatures; non-trivial = the walk contained "
         "at least one redirect")
-PROBES = ["hop_speaks_first_tls12", "slow_hops_sum_exceeds_timeout", "hop_stalls_or_resets_after_its_3x_header", "overlapping_fetches_with_certificate_rotation", "hop_closed_without_header", "redirect_target_host_in_upper_case", "chain_exactly_max", "chain_longer_than_max", "cycle", "self_loop", "cross_host_hop",
+PROBES = ["host_switches_to_an_expired_certificate", "hop_trickles_its_header", "hop_speaks_first_tls12", "slow_hops_sum_exceeds_timeout", "hop_stalls_or_resets_after_its_3x_header", "overlapping_fetches_with_certificate_rotation", "hop_closed_without_header", "redirect_target_host_in_upper_case", "chain_exactly_max", "chain_longer_than_max", "cycle", "self_loop", "cross_host_hop",
           "grey_target", "non_gemini_target", "cert_changed_on_hop", "cert_swapped_on_later_hop", "overlapping_fetches", "sql_fault_during_fetch", "follow_disabled",
           "max_redirects_zero", "final_after_redirects"]
 COMPONENTS = {
@@ -61,12 +61,16 @@ def run_one(ch):
         h = HOSTS[ch.choose("nhost", 3, [3, 2, 1])]
         nodes.append({"host": h, "path": f"/n{j}", "url": f"gemini://{h}/n{j}"})
     for j, nd in enumerate(nodes):
-        k = ch.choose("nkind", 12, [6, 24, 1, 1, 1, 1, 1, 1, 1, 1, 3, 2])
+        k = ch.choose("nkind", 13, [6, 24, 1, 1, 1, 1, 1, 1, 1, 1, 3, 2, 1])
         if k == 0:
             nd.update(kind="final")
         elif k == 10:
             # the server takes the request and closes without any header
             nd.update(kind="drop")
+        elif k == 12:
+            # a hop that dribbles a 3x header, one byte every 2.5 s (the client's timeout is 10 s
+            # per hop), and never sends the CRLF: the fetch ends in an error, and it ENDS
+            nd.update(kind="drop", trickle=True)
         elif k == 11:
             # ... or closes (cleanly) part-way through a redirect header: no CRLF ever comes,
             # and what did arrive still looks like a gemini URL
@@ -126,6 +130,10 @@ def run_one(ch):
     # overlapping fetches AND a host that changes its certificate: the sequential pin model
     # does not apply; what is demanded instead is stated below (one certificate per host)
     rotating = concurrent and bool(swap_after)
+    # the certificate a host switches to: another valid one, or one whose validity is over
+    swap_cert = ch.pick("swapcert", ["rsa3", "expired1"], [3, 1]) if swap_after else "rsa3"
+    if swap_cert == "expired1":
+        res.stats["host_switches_to_an_expired_certificate"] += 1
     reqlog = []      # every request line any server received
 
     def behaviour(host):
@@ -149,6 +157,8 @@ def run_one(ch):
                 elif nd["kind"] == "drop":
                     if nd.get("cut"):
                         peer.send_app(nd["cut"].encode())
+                    if nd.get("trickle"):
+                        peer.c16_after = "trickle"
                 elif nd["kind"] == "final":
                     peer.send_app(f"20 text/plain\r\nnode {nd['path']} on {host}\n".encode())
                 else:
@@ -157,7 +167,17 @@ def run_one(ch):
 
             def after(peer):
                 how = getattr(peer, "c16_after", None)
-                if how == "stall":
+                if how == "trickle":
+                    peer.waiting = "sleep"
+                    text = b"31 gemini://h0.sim/" + b"t" * 300
+
+                    def drip(i=0):
+                        if peer.closed or peer.ep.tx.dead or i >= len(text):
+                            return
+                        peer.send_app(text[i:i + 1])
+                        net.after(2.5, lambda: drip(i + 1))
+                    drip()
+                elif how == "stall":
                     peer.stalled = True
                     peer.waiting = "sleep"          # never woken: header sent, then silence
                 elif how == "rst":
@@ -181,13 +201,13 @@ def run_one(ch):
         servers[speak_host].tls12 = True
     for h, n_ in swap_after.items():
         servers[h].cert_queue = [certs[h]] * n_
-        servers[h].cert = "rsa3"
+        servers[h].cert = swap_cert
     pins = {}                 # model of the TOFU store: host -> fixture name
     conn_count = {h: 0 for h in HOSTS}
 
     def presented_next(h):
         n_ = swap_after.get(h)
-        return certs[h] if (n_ is None or conn_count[h] < n_) else "rsa3"
+        return certs[h] if (n_ is None or conn_count[h] < n_) else swap_cert
     fetches = []
     nf = 1 + ch.choose("nfetch", 3, [5, 3, 2])
     if concurrent:
@@ -232,13 +252,19 @@ def run_one(ch):
             if ch.chance("sqlfault", 0.12):
                 SEAM.fault_at = SEAM.tick + 1 + ch.choose("sqltick", 6)
                 SEAM.fault_kind = "error:database is locked"
-            try:
-                r = await client.get(nodes[f["start"]]["url"], follow_redirects=f["follow"])
-                got = ("resp", r.status, r.meta, r.body)
-            except CertificateChangedError as e:
-                got = ("changed", str(e)[:80])
-            except Exception as e:  # noqa
-                got = ("err", type(e).__name__, str(e)[:120])
+            task = asyncio.ensure_future(client.get(nodes[f["start"]]["url"], follow_redirects=f["follow"]))
+            await asyncio.wait({task}, timeout=400.0)      # harness guard, far above any legitimate fetch
+            if not task.done():
+                task.cancel()
+                got = ("hang",)
+            else:
+                try:
+                    r = task.result()
+                    got = ("resp", r.status, r.meta, r.body)
+                except CertificateChangedError as e:
+                    got = ("changed", str(e)[:80])
+                except BaseException as e:  # noqa
+                    got = ("err", type(e).__name__, str(e)[:120])
             SEAM.fault_at = None
             f["sqlfault"] = SEAM.fired is not None
             f["pins_after"] = {k[0]: v for k, v in read_table(str(db_path)).items()}
@@ -292,6 +318,8 @@ def run_one(ch):
                 verdict = ("grey", cur, k)
                 break
             if nd["kind"] == "drop":
+                if nd.get("trickle"):
+                    st["hop_trickles_its_header"] = 1
                 verdict = ("drop", cur, k)
                 break
             # absolute gemini redirect
@@ -334,12 +362,17 @@ def run_one(ch):
                             "storage fault during the fetch: a hop whose certificate differs from "
                             "its pin was accepted and a response returned", **ctx)
             # continue from the real pin store
-            fpmap = {fx.fp(c): c for c in list(certs.values()) + ["rsa3", "rsa4"]}
+            fpmap = {fx.fp(c): c for c in list(certs.values()) + ["rsa3", "rsa4", "expired1"]}
             pins.clear()
             for h_, v_ in f["pins_after"].items():
                 pins[h_] = fpmap.get(v_, v_)
             continue
         # ---- universal rules --------------------------------------------
+        if got[0] == "hang":
+            res.violate("C16/fetch-never-ended",
+                        "the fetch was still running 400 s after it started (client timeout 10 s per "
+                        "hop, at most max_redirects + 1 hops)", **ctx)
+            continue
         limit = (max_r + 1) if f["follow"] else 1
         group_limit_acc.append(limit)
         if nconn is not None and nconn > limit:
@@ -422,7 +455,7 @@ def run_one(ch):
         for h_ in HOSTS:
             if counts_after[h_] > before_counts[h_] and pins.get(h_) is None:
                 n_ = swap_after.get(h_)
-                pins[h_] = certs[h_] if (n_ is None or before_counts[h_] < n_) else "rsa3"
+                pins[h_] = certs[h_] if (n_ is None or before_counts[h_] < n_) else swap_cert
         if max_r == 0:
             st["max_redirects_zero"] = 1
         if hop_delay and not concurrent and verdict[0] == "final" and verdict[2] >= 2:
